@@ -102,7 +102,7 @@ class Spec:
 def gen_type(rnd, names, depth):
     r = rnd.random()
     if depth <= 0 or r < 0.25:
-        return ("prim", rnd.choice(["nat", "int", "text", "null", "bool", "nat", "text", "reserved", "principal"])) if rnd.random() < 0.5 \
+        return ("prim", rnd.choice(["nat", "int", "text", "null", "bool", "nat", "text", "reserved", "principal", "nat", "int", "empty"])) if rnd.random() < 0.5 \
             else ("ref", rnd.choice(names))
     if r < 0.40:
         return ("opt", gen_type(rnd, names, depth - 1))
@@ -112,7 +112,7 @@ def gen_type(rnd, names, depth):
         ids = sorted(rnd.sample(range(4), rnd.randrange(1, 4)))
         return ("rec", tuple((i, gen_type(rnd, names, depth - 1)) for i in ids))
     if r < 0.90:
-        ids = sorted(rnd.sample(range(4), rnd.randrange(1, 3)))
+        ids = sorted(rnd.sample(range(4), rnd.choice([0, 1, 1, 1, 2, 2])))    # `variant {}` (no values, like empty) included
         return ("var", tuple((i, gen_type(rnd, names, depth - 1)) for i in ids))
     return ("func", tuple(gen_type(rnd, names, depth - 1) for _ in range(rnd.randrange(0, 2))),
             tuple(gen_type(rnd, names, depth - 1) for _ in range(rnd.randrange(0, 3))), rnd.random() < 0.2)
